@@ -8,5 +8,6 @@ cp /repo/go.sum harness/go.sum
 (cd harness && go build -tags verif -o ../.work/svh ./cmd/svh && go build -race -tags verif -o ../.work/svh-race ./cmd/svh)
 (cd tools/extract && go build -o ../../.work/extract .)
 ./.work/extract /repo > lean/SV/Generated/Facts.lean
+./.work/extract -funcs /repo > lean/SV/Generated/Funcs.lean
 (cd lean && lake build SV svdriver)
 echo setup-ok
